@@ -62,6 +62,7 @@ type World struct {
 	bindCache       map[string][]*types.Func
 	opBuildsCache   map[string][]buildOutcome
 	opDispatchCache *opDispatch
+	reachStepCache  map[*ssa.Function]bool
 	axBuildsCache   map[string][]buildOutcome
 }
 
